@@ -26,11 +26,17 @@ var c17States = []string{"zero-stack", "freed-stack", "zero-cond", "freed-cond",
 func c17Pools(log *CallLog) *Pools {
 	return &Pools{
 		Any: []any{"x", nil, 7, stackage.Stack{}, stackage.Condition{}, stackage.And().Push("e"), []any{"AND", "a", "b"},
-			(*stackage.Stack)(nil), stackage.Cond("k", stackage.Eq, "v"), stackage.List(4).Push("capped"), c17OpOnlyCond(), stackage.Cond("", stackage.Ge, "x")},
+			(*stackage.Stack)(nil), stackage.Cond("k", stackage.Eq, "v"), stackage.List(4).Push("capped"), c17OpOnlyCond(), stackage.Cond("", stackage.Ge, "x"),
+			new(any), new(error), c17BoxedPtr()}, // (pointers to interface variables holding nothing / holding a Stack)
 		Ints: []int{0, -1, 1, 3},
 		Strs: []string{"x", "", "_random", "_addr"},
 		Log:  log,
 	}
+}
+
+func c17BoxedPtr() any {
+	var x any = stackage.Or().Push("boxed")
+	return &x
 }
 
 // c17OpOnlyCond: an initialised Condition that has an operator but neither keyword nor expression.
